@@ -40,16 +40,18 @@ static int oom_fail_fd = -1;              /* written as soon as the failure is i
 static unsigned long oom_serial;
 
 /* event log (only inside the injection window) */
-struct oom_ev { char kind; void *a; };
+struct oom_ev { char kind; void *a; unsigned long serial; };
 static struct oom_ev oom_evs[OOM_MAXEV];
 static unsigned long oom_nev;
-static int oom_log_events;
-static inline void oom_event(char kind, void *a)
+static int oom_log_events = 1;
+static inline void oom_event2(char kind, void *a, unsigned long serial)
 {
 	if (oom_log_events && oom_inject && oom_nev < OOM_MAXEV) {
-		oom_evs[oom_nev].kind = kind; oom_evs[oom_nev].a = a; ++oom_nev;
+		oom_evs[oom_nev].kind = kind; oom_evs[oom_nev].a = a;
+		oom_evs[oom_nev].serial = serial; ++oom_nev;
 	}
 }
+static inline void oom_event(char kind, void *a) { oom_event2(kind, a, 0); }
 
 static void oom_record(void *p, size_t sz, void *site)
 {
@@ -63,7 +65,7 @@ static void oom_record(void *p, size_t sz, void *site)
 	oom_tab[i].p = p; oom_tab[i].sz = sz; oom_tab[i].site = site;
 	oom_tab[i].serial = ++oom_serial;
 	++oom_nblk;
-	oom_event('A', site);
+	oom_event2('A', site, oom_tab[i].serial);
 }
 static struct oom_blk *oom_find(void *p)
 {
@@ -76,7 +78,7 @@ static void oom_forget(void *p)
 {
 	struct oom_blk *b = oom_find(p);
 	if (b) {
-		oom_event('F', b->site);
+		oom_event2('F', b->site, b->serial);
 		b->p = NULL; --oom_nblk;
 		while (oom_hiwater && !oom_tab[oom_hiwater - 1].p) --oom_hiwater;
 	}
